@@ -196,26 +196,74 @@ def rule_r3(ctx: Ctx) -> None:
     for c in leaves:
         isa = C.isa_of(ctx, C.KINDS[c.name])
         fam[c.name] = "primitive" if ("PrimitiveType" in isa or "VoidType" in isa) else "array" if "ArrayType" in isa else "composite"
-    routers = [("_serialize_field_value", True), ("_deserialize_field_value", False), ("_serialize_element", True), ("_deserialize_element", False)]
-    for fname, is_writer in routers:
-        bad = {}
-        for c in leaves:
-            t = C.type_sym(ctx, c.name, name=c.name, alignment_requirement=1)
+    # every concrete type, used as the type of a structure field and as the element type of an array, is encoded and decoded:
+    # the composite / array codecs are evaluated over a one-field structure and a one-element array of each kind
+    sch0 = K.schemas(ctx)
+    P0 = sch0["opaque"]["P"]
 
-            def enter(name: str, args: List[Any], fname: str = fname) -> Any:
-                return True if name == fname else "record"
+    def concrete(c: Any) -> Any:
+        if fam[c.name] == "primitive":
+            width = 32 if c.name == "FloatType" else (1 if c.name == "BooleanType" else (5 if c.name == "VoidType" else 8))
+            return C.type_sym(ctx, c.name, name=c.name, bit_length=width, cast_mode=SAT, alignment_requirement=1, inclusive_value_range=Sym(min=0, max=1))
+        if c.name == "FixedLengthArrayType":
+            return C.type_sym(ctx, c.name, element_type=P0, capacity=2, alignment_requirement=1, name="P[2]")
+        if c.name == "VariableLengthArrayType":
+            return C.type_sym(ctx, c.name, element_type=P0, capacity=5, alignment_requirement=1, length_field_type=Sym(bit_length=8), name="P[<=5]")
+        if c.name == "StructureType":
+            return C.structure(ctx, [C.field_sym(ctx, "p", P0)], "Sx")
+        if c.name == "UnionType":
+            return C.union(ctx, [C.field_sym(ctx, "p", P0), C.field_sym(ctx, "q", P0)], 8, "Ux")
+        if c.name == "DelimitedType":
+            return C.delimited(ctx, C.structure(ctx, [C.field_sym(ctx, "p", P0)], "Sy"), "Dx")
+        return None
 
-            if is_writer:
-                runs = C.explore_codec(ctx, fname, lambda sink, t=t: ([C.AWriter(sink, "w"), t, "v"], {}), enter)
-            else:
-                runs = C.explore_codec(ctx, fname, lambda sink, t=t: ([C.AReader(sink, "r"), t], {}), enter)
-            r = K.only(runs, "%s on %s" % (fname, c.name))
-            calls = [ev for ev in r.events if ev[0] == "CALL"]
-            want_fn = ("_serialize_" if is_writer else "_deserialize_") + fam[c.name]
-            ctx.count()
-            if r.raised or len(calls) != 1 or calls[0][1] != want_fn:
-                bad[c.name] = r.raised or [x[1] for x in calls]
-        ctx.check(not bad, SD + "." + fname, "routes %d concrete types to primitive / array / composite codecs" % len(leaves), "every concrete type reaches the codec of its kind", ctx.func(SD + "." + fname).where(), bad)
+    def a_value(t: Any) -> Any:
+        k = t._kind_
+        if k in ("StructureType", "DelimitedType"):
+            return {"p": "V_p"}
+        if k == "UnionType":
+            return {"p": "V_p"}
+        if k in ("FixedLengthArrayType",):
+            return ["x", "y"]
+        if k == "VariableLengthArrayType":
+            return ["x"]
+        return None if k == "VoidType" else 1
+
+    for role in ("field", "element"):
+        for is_writer in (True, False):
+            bad = {}
+            for c in leaves:
+                t = concrete(c)
+                if t is None:
+                    continue  # service types are not serializable (C13 / C07.R1)
+                if role == "field":
+                    if c.name == "VoidType":
+                        holder = C.structure(ctx, [C.field_sym(ctx, "", t, padding=True)], "H")
+                        hv: Any = {}
+                    else:
+                        holder = C.structure(ctx, [C.field_sym(ctx, "x", t)], "H")
+                        hv = {"x": a_value(t)}
+                    fname = "_serialize_composite" if is_writer else "_deserialize_composite"
+                else:
+                    if c.name == "VoidType":
+                        continue  # void is not an element type
+                    if c.name in ("UTF8Type", "ByteType"):
+                        # text / blob elements live in variable-length arrays and are given as str / bytes; what the reader
+                        # makes of the decoded elements (a str / bytes object) is a value conversion outside the codec events
+                        if not is_writer:
+                            continue
+                        holder = C.type_sym(ctx, "VariableLengthArrayType", element_type=t, capacity=5, alignment_requirement=1, length_field_type=Sym(bit_length=8), name="%s[<=5]" % c.name)
+                        hv = "a" if c.name == "UTF8Type" else b"a"
+                    else:
+                        holder = C.type_sym(ctx, "FixedLengthArrayType", element_type=t, capacity=1, alignment_requirement=t.alignment_requirement, name="%s[1]" % c.name)
+                        hv = [a_value(t)]
+                    fname = "_serialize_array" if is_writer else "_deserialize_array"
+                runs = K.writer_runs(ctx, fname, holder, hv) if is_writer else K.reader_runs(ctx, fname, holder)
+                ctx.count()
+                good_runs = [r for r in runs if not r.raised]
+                if not good_runs or not all(any(ev[0] in ("BITS", "EMIT", "HEADER", "SUBREADER", "ALIGN", "CALL") for ev in r.events) for r in good_runs):
+                    bad[c.name] = [r.raised for r in runs]
+            ctx.check(not bad, SD + (".serialize" if is_writer else ".deserialize"), "every concrete type as a structure %s is %s" % ("field" if role == "field" else "array element", "encoded" if is_writer else "decoded"), "every concrete type reaches the codec of its kind", "pydsdl/_serdes.py", bad)
     # inside the primitive codec every primitive kind has a handler (no fall-through to "unknown type")
     for fname, is_writer in (("_serialize_primitive", True), ("_deserialize_primitive", False)):
         bad = {}
@@ -244,11 +292,8 @@ def rule_r3(ctx: Ctx) -> None:
     for kind, val in (("UTF8Type", "ab"), ("ByteType", b"ab")):
         et = C.type_sym(ctx, kind, _opaque_=True, name=kind, alignment_requirement=1, full_name=kind)
         arr = C.type_sym(ctx, "VariableLengthArrayType", element_type=et, capacity=5, alignment_requirement=1, length_field_type=Sym(bit_length=8), name=kind + "[<=5]")
-        try:
-            rs = K.writer_runs(ctx, "_serialize_array", arr, val)
-            out: List[Any] = [(r.raised, [ev[2] for ev in _w(r.events, "w", True) if ev[0] == "EMIT"]) for r in rs]
-        except AnalysisError as ex:
-            out = [("not evaluable", str(ex)[:80])]
+        rs = K.writer_runs(ctx, "_serialize_array", arr, val)
+        out: List[Any] = [(r.raised, [ev[2] for ev in _w(r.events, "w", True) if ev[0] == "EMIT"]) for r in rs]
         ctx.count()
         ctx.check(out == [(None, [97, 98])], SD + "._serialize_array[%s]" % kind, str(out), "utf8 and byte arrays accept str / bytes input, element by element", "pydsdl/_serdes.py", nontrivial=False)
 
@@ -301,12 +346,36 @@ def rule_r4(ctx: Ctx) -> None:
     wv = _w(K.only(K.writer_runs(ctx, "_serialize_primitive", vt, None), "void").events, "w", True)
     rv = K.only(K.reader_runs(ctx, "_deserialize_primitive", vt), "void")
     ctx.check(wv == [("BITS", 5, 0)] and _w(rv.events, "r") == [("BITS", 5)] and rv.result is None, SD + "._(de)serialize_primitive[VoidType]", C.show(wv), "padding is written as zero bits and skipped on reading", where, nontrivial=False)
-    # floats: saturation consults the value range, non-finite values are recognised (structure of the clamp, not its arithmetic)
-    fn = ctx.func(SD + "._serialize_primitive")
-    node = ctx.inl(fn, keep=tuple(ctx.repo.module(SD).functions))
-    src = norm(node)
-    good = "isnan" in src and "inf" in src and "inclusive_value_range" in src
-    ctx.check(good, fn.short + "[FloatType]", "saturation consults the value range; non-finite values are recognised", "floats saturate to the largest finite value or overflow to infinity; NaN passes through", fn.where(), nontrivial=False)
+    # floats: what is handed to the IEEE 754 packer for in-range, out-of-range, non-finite and not-representable-as-float inputs
+    import math
+    import struct as _struct
+
+    fbad = []
+    for width, fmt, top in ((16, "<e", 65504), (32, "<f", int(_struct.unpack("<f", b"\xff\xff\x7f\x7f")[0])), (64, "<d", int(_struct.unpack("<d", b"\xff" * 6 + b"\xef\x7f")[0]))):
+        for mode in (SAT, TRUNC):
+            ft = C.type_sym(ctx, "FloatType", name="float%d" % width, bit_length=width, cast_mode=mode, alignment_requirement=1, inclusive_value_range=Sym(min=-top, max=top))
+            beyond = float(top) * 4 if width < 64 else None
+            grid = [(1.5, 1.5), (-0.25, -0.25), (3, 3.0), (True, 1.0), (float(top), float(top)), (float("inf"), float("inf")), (float("-inf"), float("-inf")), (float("nan"), float("nan"))]
+            over = (lambda sign: sign * float(top)) if mode == SAT else (lambda sign: sign * math.inf)
+            if beyond is not None:
+                grid += [(beyond, over(1)), (-beyond, over(-1)), (int(beyond), over(1))]
+            grid += [(10**400, over(1)), (-(10**400), over(-1))]
+            for v, want in grid:
+                r = K.only(K.writer_runs(ctx, "_serialize_primitive", ft, v), "%s of %r" % (ft.name, v))
+                ctx.count()
+                got = None
+                ok = not r.raised
+                if ok:
+                    terms = [ev[2] for ev in _w(r.events, "w", True) if ev[0] == "BITS"]
+                    if not (terms and all(isinstance(t, tuple) and len(t) == 4 and t[0] == "packed-byte" for t in terms)):
+                        raise AnalysisError("%s of %r: the output is not the bytes of one packed value: %s" % (ft.name, v, C.show(r.events)[:160]))
+                    got = terms[0][3]
+                    ok = [t[:3] for t in terms] == [("packed-byte", fmt, k) for k in range(width // 8)] and all(t[3] is got or t[3] == got for t in terms)
+                    ok = ok and isinstance(got, (int, float)) and ((math.isnan(got) and math.isnan(want)) or (float(got) == want and math.copysign(1, float(got)) == math.copysign(1, want)))
+                if not ok:
+                    fbad.append({"type": ft.name, "mode": mode, "value": repr(v), "packed": r.raised or repr(got), "expected": repr(want)})
+    ctx.check(not fbad, SD + "._serialize_primitive[FloatType]", "grid of widths x modes x {in range, at the largest finite value, beyond it, +-inf, nan, integers no float can hold}",
+              "floats out of range saturate to the largest finite value or overflow to infinity (truncated); infinities and NaN pass through; in-range values are packed as given", where, fbad[:4])
 
 
 def rule_r5(ctx: Ctx) -> None:
